@@ -123,6 +123,26 @@ def popOpt (env : Env) : Option (List Mod) → Except Err (Rat × Option (List M
   | none => pure (0, none)
   | some l => do let (d, k) ← popList env l; pure (d, some k)
 
+def popInterval (env : Env) (iv : Interval) : Except Err (Rat × Interval) := do
+  let (d, k) ← popOpt env iv.mods
+  pure (d, { iv with mods := k })
+
+def popEntry (env : Env) (p : Int × List Mod) : Except Err (Rat × (Int × List Mod)) := do
+  let (d, k) ← popList env p.2
+  pure (d, (p.1, k))
+
+def popIntervals (env : Env) : Option (List Interval) → Except Err (Rat × Option (List Interval))
+  | none => pure (0, none)
+  | some l => do
+    let rs ← l.mapM (popInterval env)
+    pure (rs.foldr (fun r acc => r.1 + acc) 0, some (rs.map (·.2)))
+
+def popInternal (env : Env) : Option (List (Int × List Mod)) → Except Err (Rat × Option (List (Int × List Mod)))
+  | none => pure (0, none)
+  | some l => do
+    let rs ← l.mapM (popEntry env)
+    pure (rs.foldr (fun r acc => r.1 + acc) 0, some (rs.map (·.2)))
+
 /-- `_pop_delta_mass_mods`: labile, unknown, N-term, C-term, intervals, internal.
 (`clear_empty_mods` only turns emptied lists into `None`, which no later step distinguishes.) -/
 def popDeltaMassMods (env : Env) (a : Annotation) : Except Err (Rat × Annotation) := do
@@ -130,20 +150,8 @@ def popDeltaMassMods (env : Env) (a : Annotation) : Except Err (Rat × Annotatio
   let (d2, unk) ← popOpt env a.unknown
   let (d3, nt) ← popOpt env a.nterm
   let (d4, ct) ← popOpt env a.cterm
-  let (d5, ivs) ← match a.intervals with
-    | none => pure ((0 : Rat), none)
-    | some l => do
-      let r ← l.foldlM (fun (acc : Rat × List Interval) iv => do
-        let (d, k) ← popOpt env iv.mods
-        pure (acc.1 + d, acc.2 ++ [{ iv with mods := k }])) ((0 : Rat), [])
-      pure (r.1, some r.2)
-  let (d6, int) ← match a.internal with
-    | none => pure ((0 : Rat), none)
-    | some l => do
-      let r ← l.foldlM (fun (acc : Rat × List (Int × List Mod)) p => do
-        let (d, k) ← popList env p.2
-        pure (acc.1 + d, acc.2 ++ [(p.1, k)])) ((0 : Rat), [])
-      pure (r.1, some r.2)
+  let (d5, ivs) ← popIntervals env a.intervals
+  let (d6, int) ← popInternal env a.internal
   pure (d1 + d2 + d3 + d4 + d5 + d6,
     { a with labile := lab, unknown := unk, nterm := nt, cterm := ct, intervals := ivs, internal := int })
 
@@ -181,57 +189,88 @@ def residueComp (seq : List Char) : Except Err Comp :=
     | none => .error .unknownAA
     | some k => pure (addAll acc k)) ([] : Comp)
 
+/-- building the default adduct text looks the ion type up (KeyError) before anything else happens -/
+def carrierCheck (a : Annotation) (ion : Key) : Except Err Unit :=
+  match a.adducts with
+  | some [] => Except.error Err.indexError
+  | some _ => pure ()
+  | none => if ion = ionP || ion = ionN || (lookup ion Gen.baseAdducts).isSome then pure () else Except.error Err.keyError
+
+/-- the charge carrier as a composition: the stated adducts, else the default for the ion type and charge -/
+def carrierComp (a : Annotation) (ion : Key) : Except Err Comp :=
+  match a.adducts with
+  | some (m :: _) => chargeAdductsComp m.val
+  | some [] => .error .indexError
+  | none => defaultCarrier (a.charge.getD 0) ion
+
+/-- residues + neutral fragment adjustment + charge carrier -/
+def seqBaseComp (a : Annotation) (ion : Key) : Except Err Comp := do
+  let seqc ← residueComp a.seq
+  match lookup ion neutralAdj with
+  | none => .error .keyError
+  | some adj => do
+    let carrier ← carrierComp a ion
+    pure (addAll (addAll seqc adj) carrier)
+
+def intervalsComp (env : Env) (acc : Comp) : Option (List Interval) → Except Err Comp
+  | none => pure acc
+  | some l => l.foldlM (fun acc iv => addOptMods env acc iv.mods) acc
+
+def internalComp (env : Env) (acc : Comp) : Option (List (Int × List Mod)) → Except Err Comp
+  | none => pure acc
+  | some l => l.foldlM (fun acc p => addMods env acc p.2) acc
+
+def labileComp (env : Env) (acc : Comp) (a : Annotation) (ion : Key) : Except Err Comp :=
+  if ion = ionP then addOptMods env acc a.labile else pure acc
+
+/-- the modification part: unknown, intervals, labile (precursor only), N-term, C-term, residues, global rules -/
+def modsComp (env : Env) (a : Annotation) (ion : Key) : Except Err Comp := do
+  let mc ← addOptMods env [] a.unknown
+  let mc ← intervalsComp env mc a.intervals
+  let mc ← labileComp env mc a ion
+  let mc ← addOptMods env mc a.nterm
+  let mc ← addOptMods env mc a.cterm
+  let mc ← internalComp env mc a.internal
+  addStatic env mc a.seq a.static
+
+/-- isotope substitution: always on the sequence part, on the modification part only with `use_isotope_on_mods` -/
+def applyLabels (a : Annotation) (useIso : Bool) (seqc mc : Comp) : Except Err (Comp × Comp) :=
+  match a.isotope with
+  | none => pure (seqc, mc)
+  | some iso => do
+    let s ← applyIsotopeMods seqc iso
+    if useIso then do let m ← applyIsotopeMods mc iso; pure (s, m) else pure (s, mc)
+
 /-- `_sequence_comp(annotation, ion_type, isotope, use_isotope_on_mods)` -/
 def sequenceComp (env : Env) (a : Annotation) (ion : Key) (isotope : Int) (useIso : Bool) : Except Err Comp := do
-  let charge := a.charge.getD 0
-  -- building the default adduct text looks the ion type up (KeyError) before anything else happens
-  let _ ← match a.adducts with
-    | some [] => Except.error Err.indexError
-    | some _ => pure ()
-    | none => if ion = ionP || ion = ionN || (lookup ion Gen.baseAdducts).isSome then pure () else Except.error Err.keyError
+  carrierCheck a ion
   if a.seq.contains 'B' then .error .ambiguousAA
   else if a.seq.contains 'Z' then .error .ambiguousAA
-  else
-    let seqc ← residueComp a.seq
-    match lookup ion neutralAdj with
-    | none => .error .keyError
-    | some adj =>
-      let carrier ← match a.adducts with
-        | some (m :: _) => chargeAdductsComp m.val
-        | some [] => .error .indexError
-        | none => defaultCarrier charge ion
-      let seqc := addAll (addAll seqc adj) carrier
-      let mc ← addOptMods env [] a.unknown
-      let mc ← match a.intervals with
-        | none => pure mc
-        | some l => l.foldlM (fun acc iv => addOptMods env acc iv.mods) mc
-      let mc ← if ion = ionP then addOptMods env mc a.labile else pure mc
-      let mc ← addOptMods env mc a.nterm
-      let mc ← addOptMods env mc a.cterm
-      let mc ← match a.internal with
-        | none => pure mc
-        | some l => l.foldlM (fun acc p => addMods env acc p.2) mc
-      let mc ← addStatic env mc a.seq a.static
-      let mc := addKey mc kNn (isotope : Rat)
-      let (seqc, mc) ← match a.isotope with
-        | none => pure (seqc, mc)
-        | some iso => do
-          let s ← applyIsotopeMods seqc iso
-          if useIso then do let m ← applyIsotopeMods mc iso; pure (s, m) else pure (s, mc)
-      pure (dropZeros (addAll (addAll [] seqc) mc))
+  else do
+    let seqc ← seqBaseComp a ion
+    let mc ← modsComp env a ion
+    let mc := addKey mc kNn (isotope : Rat)
+    let (seqc, mc) ← applyLabels a useIso seqc mc
+    pure (dropZeros (addAll (addAll [] seqc) mc))
+
+/-- the argument overrides of `comp_mass` on its private copy -/
+def overrideArgs (a : Annotation) (charge : Option Int) (adducts : Option ModVal) (isoMods : Option (List Mod)) : Annotation :=
+  let a := match charge with | some c => { a with charge := some c } | none => a
+  let a := match adducts with | some v => { a with adducts := some [⟨v, 1⟩] } | none => a
+  match isoMods with | some l => { a with isotope := some l } | none => a
+
+/-- labile modifications belong to the precursor only: `if ion_type != 'p': annotation.pop_labile_mods()` -/
+def dropLabile (a : Annotation) (ion : Key) : Annotation := if ion = ionP then a else { a with labile := none }
+
+/-- `clear_empty_mods` (inside `_pop_delta_mass_mods`) turns an empty adduct list into None -/
+def clearEmptyAdducts (a : Annotation) : Annotation :=
+  match a.adducts with | some [] => { a with adducts := none } | _ => a
 
 /-- `comp_mass(annotation, ion_type, charge, isotope, charge_adducts, isotope_mods, use_isotope_on_mods)` -/
 def compMass : CompMassFn := fun env a ion charge isotope adducts isoMods useIso => do
-  let a := match charge with | some c => { a with charge := some c } | none => a
-  let a := match adducts with | some v => { a with adducts := some [⟨v, 1⟩] } | none => a
-  let a := match isoMods with | some l => { a with isotope := some l } | none => a
-  -- clear_empty_mods (inside _pop_delta_mass_mods) turns an empty adduct list into None
-  let a ← condenseStatic env a
-  -- labile modifications belong to the precursor only: `if ion_type != 'p': annotation.pop_labile_mods()`
-  let a := if ion = ionP then a else { a with labile := none }
-  let (delta, a) ← popDeltaMassMods env a
-  let a := match a.adducts with | some [] => { a with adducts := none } | _ => a
-  let c ← sequenceComp env a ion isotope useIso
+  let a ← condenseStatic env (overrideArgs a charge adducts isoMods)
+  let (delta, a) ← popDeltaMassMods env (dropLabile a ion)
+  let c ← sequenceComp env (clearEmptyAdducts a) ion isotope useIso
   pure (c, delta)
 
 /-- `estimate_comp(neutral_mass, isotopic_mods)` -/
